@@ -2492,4 +2492,20 @@ theorem multi_more (hI : Ideal A) (rc : RCfg) (hch : rc.checkHash = true) (hev :
                 · cases h; exact hm
                 · cases h
 
+theorem all_sound (hI : Ideal A) (t : Tree H) (n : Nat) (hwf : WF t n) (kvs : List (Path × H))
+    (hkl : ∀ kv ∈ kvs, kv.1.length = n) (more : Bool)
+    (h : verifyAll A (t.hash A) n kvs = RRes.ok more) :
+    more = false ∧ ∀ k, k.length = n → t.get A k = (lastVal kvs k).getD A.zero := by
+  unfold verifyAll at h
+  split at h
+  · cases h
+  · split at h
+    · cases h
+    · split at h
+      · rename_i hroot
+        cases h
+        refine ⟨rfl, fun k hk => ?_⟩
+        exact lookup_agree hI _ t n k _ hwf hk hroot (embed_build_lookup n kvs k hkl hk)
+      · cases h
+
 end Juno.C10
